@@ -16,6 +16,8 @@ R3 margin: on every branch not guarded by "margin does not fit" consecutive wind
 R4 presence: every branch gives a non-empty window that starts inside the cycle; no other path
    denies an active runner depending on I, M, N or p
 R5 a single active runner is always authorised
+R6 floating point: touching windows keep their order under rounding (upper(p) is computed FROM the
+   expression of lower(p+1) by subtracting non-negative terms)
 
 NOT decided: floating-point rounding (the forms are over the rationals), anything about the instants
 at which different runners read their clocks, and the stability of the runner list over time.
@@ -40,9 +42,26 @@ LEVEL_NOTE = "Trusted base: Python's ast parser; the checker's interpreter for t
 DESIGN_REF = "DESIGN.md section 9.6 (C12)"
 
 MOD = "pynenc.orchestrator.atomic_service"
-SIGNS = {"I": POS, "M": NONNEG, "N": POS, "p": NONNEG, "t": NONNEG, "tc": NONNEG,
+POSITION_FN = "calculate_runner_position"
+SIGNS = {"Imin": POS, "Mmin": NONNEG, "N": POS, "p": NONNEG, "t": NONNEG, "tc": NONNEG,
          # N is a positive integer and the window paths have N != 1, hence N - 1 >= 1
          "__positive_forms__": (Poly.sym("N") - Poly.const(1),)}
+
+
+def T(p: Poly, tree) -> Poly:
+    p.tree = tree
+    return p
+
+
+def S(name: str) -> Poly:
+    return T(Poly.sym(name), ("sym", name))
+
+
+class NeedChoice(Exception):
+    """max(a, b) / min(a, b) over forms: the statement is re-run once per ordering of a and b"""
+
+    def __init__(self, key: int, a: Poly, b: Poly, kind: str):
+        self.key, self.a, self.b, self.kind = key, a, b, kind
 
 
 class Opaque:
@@ -71,9 +90,13 @@ class Path:
     env: dict = field(default_factory=dict)
     ret: object = None
     done: bool = False
+    choices: dict = field(default_factory=dict)  # id(max/min call) -> 0 | 1 (which operand is taken on this path)
 
     def fork(self) -> "Path":
-        return Path(list(self.facts), list(self.opaque), dict(self.env), None, False)
+        return Path(list(self.facts), list(self.opaque), dict(self.env), None, False, dict(self.choices))
+
+    def fork_keep(self) -> "Path":
+        return Path(list(self.facts), list(self.opaque), dict(self.env), self.ret, self.done, dict(self.choices))
 
 
 REL = {ast.Lt: "< 0", ast.LtE: "<= 0", ast.Gt: "> 0", ast.GtE: ">= 0", ast.Eq: "= 0", ast.NotEq: "!= 0"}
@@ -99,7 +122,7 @@ class Interp:
             if isinstance(e.value, bool) or e.value is None:
                 return e.value
             if isinstance(e.value, (int, float)):
-                return Poly.const(Fraction(str(e.value)))
+                return T(Poly.const(Fraction(str(e.value))), ("const", str(e.value)))
             return Opaque("const")
         if isinstance(e, ast.Name):
             if e.id in p.env:
@@ -107,39 +130,46 @@ class Interp:
             return Opaque(e.id)
         if isinstance(e, ast.UnaryOp) and isinstance(e.op, ast.USub):
             v = self.expr(e.operand, p)
-            return -v if isinstance(v, Poly) else Opaque("neg")
+            return T(-v, ("neg", v.tree)) if isinstance(v, Poly) else Opaque("neg")
         if isinstance(e, ast.BinOp):
             a, b = self.expr(e.left, p), self.expr(e.right, p)
             if isinstance(a, Poly) and isinstance(b, Poly):
+                tr = lambda op: (op, a.tree, b.tree) if a.tree is not None and b.tree is not None else None  # noqa: E731
                 if isinstance(e.op, ast.Add):
-                    return a + b
+                    return T(a + b, tr("+"))
                 if isinstance(e.op, ast.Sub):
-                    return a - b
+                    return T(a - b, tr("-"))
                 if isinstance(e.op, ast.Mult):
-                    return a * b
+                    return T(a * b, tr("*"))
                 if isinstance(e.op, ast.Div):
                     r = a.div(b)
                     if r is None:
                         raise AnalysisError(f"C12: division by zero in `{ast.unparse(e)}`")
-                    return r
+                    return T(r, tr("/"))
                 if isinstance(e.op, ast.Mod):
                     if a != Poly.sym("t"):
                         raise AnalysisError(f"C12: `%` applied to something else than the clock: {ast.unparse(e)}")
                     if self.modulus is not None and self.modulus != b:
                         raise AnalysisError("C12: two different moduli")
                     self.modulus = b
-                    return Poly.sym("tc")
+                    return S("tc")
                 raise AnalysisError(f"C12: operator in `{ast.unparse(e)}` is outside the polynomial domain")
             return Opaque("binop")
         if isinstance(e, ast.Call):
             nm = call_name(e)
             if nm == "len" and len(e.args) == 1 and isinstance(self.expr(e.args[0], p), Opaque) and self.expr(e.args[0], p).tag == "RUNNERS":
-                return Poly.sym("N")
+                return S("N")
             if isinstance(e.func, ast.Name) and nm in self.funcs:
                 f = self.funcs[nm]
-                if _is_position_lookup(f):
-                    return Poly.sym("p")
+                if nm == POSITION_FN:
+                    return S("p")
                 return ("CALL", f, e)
+            if nm in ("max", "min") and isinstance(e.func, ast.Name) and len(e.args) == 2 and not e.keywords:
+                a, b = self.expr(e.args[0], p), self.expr(e.args[1], p)
+                if isinstance(a, Poly) and isinstance(b, Poly):
+                    if id(e) not in p.choices:
+                        raise NeedChoice(id(e), a, b, nm)
+                    return (a, b)[p.choices[id(e)]]
             if nm in ("float", "int") and len(e.args) == 1:
                 v = self.expr(e.args[0], p)
                 if isinstance(v, Poly) and nm == "float":
@@ -239,6 +269,22 @@ class Interp:
         return [(p, v)]
 
     def stmt(self, st: ast.stmt, p: Path) -> list[Path]:
+        try:
+            return self._stmt(st, p.fork_keep())
+        except NeedChoice as c:
+            d = c.a - c.b
+            first, second = p.fork_keep(), p.fork_keep()
+            # max: a if a >= b else b ; min: a if a <= b else b
+            if c.kind == "max":
+                first.facts.append((d, ">= 0"))
+                second.facts.append((d, "< 0"))
+            else:
+                first.facts.append((d, "<= 0"))
+                second.facts.append((d, "> 0"))
+            first.choices[c.key], second.choices[c.key] = 0, 1
+            return self.stmt(st, first) + self.stmt(st, second)
+
+    def _stmt(self, st: ast.stmt, p: Path) -> list[Path]:
         if isinstance(st, (ast.Assign, ast.AnnAssign)):
             val = st.value
             tgts = st.targets if isinstance(st, ast.Assign) else [st.target]
@@ -316,6 +362,76 @@ def _is_position_lookup(f: FuncInfo) -> bool:
     return bool(eqs)
 
 
+def _position_kind(f: FuncInfo) -> str:
+    """index: position in the list (injective for distinct ids); rank: a count of entries ordered before
+    the runner by some attribute (ties share a position); unknown otherwise"""
+    if _is_position_lookup(f):
+        return "index"
+    if any(isinstance(n, ast.Call) and isinstance(n.func, ast.Attribute) and n.func.attr == "index" for n in ast.walk(f.node)):
+        return "index"
+    for n in ast.walk(f.node):
+        if isinstance(n, ast.Call) and isinstance(n.func, ast.Name) and n.func.id in ("sum", "len") and n.args:
+            for g in ast.walk(n.args[0]):
+                if isinstance(g, ast.comprehension) and any(isinstance(c, ast.Compare) and any(isinstance(o, (ast.Lt, ast.LtE, ast.Gt, ast.GtE)) for o in c.ops) for i_ in g.ifs for c in ast.walk(i_)):
+                    return "rank"
+    return "unknown"
+
+
+# ---- floating-point order of evaluation -----------------------------------------------------------
+
+
+def tree_subst(t, sym: str, repl):
+    if t is None:
+        return None
+    if t[0] == "sym":
+        return repl if t[1] == sym else t
+    if t[0] == "const":
+        return t
+    return (t[0],) + tuple(tree_subst(x, sym, repl) for x in t[1:])
+
+
+def tree_poly(t) -> Poly:
+    if t[0] == "sym":
+        return Poly.sym(t[1])
+    if t[0] == "const":
+        return Poly.const(Fraction(t[1]))
+    if t[0] == "neg":
+        return -tree_poly(t[1])
+    a, b = tree_poly(t[1]), tree_poly(t[2])
+    if t[0] == "+":
+        return a + b
+    if t[0] == "-":
+        return a - b
+    if t[0] == "*":
+        return a * b
+    r = a.div(b)
+    if r is None:
+        raise AnalysisError("C12: division by zero in an expression tree")
+    return r
+
+
+def tree_canon(t):
+    """IEEE-754 `+` and `*` are commutative (not associative): operands of one node are ordered, nothing else moves"""
+    if t is None or t[0] in ("sym",):
+        return t
+    if t[0] == "const":
+        return ("const", str(Fraction(t[1])))
+    kids = tuple(tree_canon(x) for x in t[1:])
+    if t[0] in ("+", "*"):
+        kids = tuple(sorted(kids, key=repr))
+    return (t[0],) + kids
+
+
+def tree_show(t) -> str:
+    if t is None:
+        return "?"
+    if t[0] in ("sym", "const"):
+        return t[1]
+    if t[0] == "neg":
+        return f"-{tree_show(t[1])}"
+    return f"({tree_show(t[1])} {t[0]} {tree_show(t[2])})"
+
+
 def _member_from(cmps: list, modulus: Poly | None) -> Member | None:
     tc = Poly.sym("tc")
     lo = hi = None
@@ -346,30 +462,36 @@ def _member_from(cmps: list, modulus: Poly | None) -> Member | None:
 
 def _grid():
     for n in (2, 3, 4, 7):
-        for i in (Fraction(6), Fraction(60), Fraction(300), Fraction(3600)):
-            for m in (Fraction(0), Fraction(1, 100), i / n / 2, i / n, i / n * 3, i * 2):
+        for i in (Fraction(1, 10), Fraction(1), Fraction(5), Fraction(60)):
+            for m in (Fraction(0), Fraction(1, 1000), i / n / 2, i / n * 3 / 4, i / n, i / n * 3, i * 2):
                 for pos in range(n):
-                    yield {"N": Fraction(n), "I": i, "M": m, "p": Fraction(pos), "t": Fraction(0), "tc": Fraction(0)}
+                    yield {"N": Fraction(n), "Imin": i, "Mmin": m, "p": Fraction(pos), "t": Fraction(0), "tc": Fraction(0)}
 
 
 def decide(ctx: Context, rule: str, key: str, where: str, p: Poly, rel: str, facts, why: str, need_p_succ: bool = False) -> None:
     """proved by the sign lattice -> held; a rational witness -> violation; neither -> the analysis cannot decide (exit 2)"""
     if proves(p, rel, SIGNS, facts):
-        ctx.ok(rule, key, where, f"{p!r} {rel} for all I > 0, M >= 0, N > 0, p >= 0" + (f" given {[(repr(q), r) for q, r in facts]}" if facts else ""))
+        ctx.ok(rule, key, where, f"{p!r} {rel} for all interval > 0, margin >= 0, N > 0, p >= 0" + (f" given {[(repr(q), r) for q, r in facts]}" if facts else ""))
         return
+    satisfiable = False
     for env in _grid():
         if need_p_succ and env["p"] + 1 > env["N"] - 1:
             continue
         try:
             if not all(r == "!= 0" and q.at(env) != 0 or r != "!= 0" and holds(q.at(env), r) for q, r in facts):
                 continue
+            satisfiable = True
             v = p.at(env)
         except (KeyError, ZeroDivisionError):
             continue
         if not holds(v, rel):
-            w = {k: str(x) for k, x in env.items() if k in ("N", "I", "M", "p")}
+            w = {k: str(x) for k, x in env.items() if k in ("N", "Imin", "Mmin", "p")}
             ctx.fail(rule, key, where, f"{why}: {p!r} {rel} fails, e.g. for {w} (value {v})")
             return
+    if not satisfiable and facts:
+        # the path facts (branch guard + 'the margin fits') exclude each other on the whole grid: nothing to show here
+        ctx.ok(rule, key, where, f"vacuous: no sampled configuration satisfies {[(repr(q), r) for q, r in facts]}")
+        return
     raise AnalysisError(f"C12: cannot decide `{p!r} {rel}` ({key}): neither proved by the sign lattice nor refuted on the sample grid")
 
 
@@ -380,6 +502,7 @@ def run(ctx: Context) -> None:
     ctx.rule("R3", "margin: on every branch not guarded by 'the margin does not fit' lower(p+1) - upper(p) >= M and modulus + lower(0) - upper(N-1) >= M")
     ctx.rule("R4", "presence: on every branch upper(p) - lower(p) > 0, lower(p) >= 0, lower(N-1) < modulus; no path denies a listed runner under an arithmetic condition")
     ctx.rule("R5", "a single active runner is always authorised: every path with N = 1 returns True")
+    ctx.rule("R6", "floating-point order at touching windows: wherever the real-arithmetic gap between upper(p) and lower(p+1) vanishes with the margin, upper(p) is computed as <the very expression of lower(p+1)> minus non-negative terms (IEEE-754 correctly rounded subtraction is monotone; + and * commute but do not associate)")
     bo = repo.cls("BaseOrchestrator")
     entry = bo.methods.get("should_run_atomic_service")
     if entry is None:
@@ -428,13 +551,17 @@ def run(ctx: Context) -> None:
     ctx.add("R1", "should_run_atomic_service::arguments-are-clock-interval-margin-eligible-runners", got == want and len(roles) == 5, entry.loc(call), "" if got == want else ("the runner list is not restricted to runners eligible for the global services: positions are computed over runners that never ask" if unfiltered else f"roles passed: {roles}"))
     if not want <= set(roles.values()):
         raise AnalysisError(f"C12: cannot resolve the roles of the arguments of can_run_atomic_service: {roles}")
-    sixty = Poly.const(60)
     env = {}
     for nme, r in roles.items():
-        # minutes -> the symbols I and M stand for the interval and margin in SECONDS (I = 60 * minutes)
-        env[nme] = {"t": Poly.sym("t"), "RUNNERS": Opaque("RUNNERS"), "Imin": Poly.sym("I").div(sixty), "Mmin": Poly.sym("M").div(sixty), "id": Opaque("id")}[r]
-    pos = [f for f in it.funcs.values() if _is_position_lookup(f)]
-    ctx.add("R1", "calculate_runner_position::index-of-first-entry-with-the-runner-id", len(pos) == 1, pos[0].loc() if pos else target.loc(), "" if len(pos) == 1 else "no function returns the index of the runner in the ordered list")
+        # the symbols are the configured MINUTES; the code's own `* 60` is folded like any other arithmetic
+        env[nme] = {"t": S("t"), "RUNNERS": Opaque("RUNNERS"), "Imin": S("Imin"), "Mmin": S("Mmin"), "id": Opaque("id")}[r]
+    posf = it.funcs.get(POSITION_FN)
+    if posf is None:
+        raise AnalysisError(f"anchor-vanished: atomic_service.{POSITION_FN}")
+    kind = _position_kind(posf)
+    if kind == "unknown":
+        raise AnalysisError(f"C12: cannot classify how {POSITION_FN} derives the position (neither an index into the list nor a rank)")
+    ctx.add("R1", "calculate_runner_position::index-of-first-entry-with-the-runner-id", kind == "index", posf.loc(), "" if kind == "index" else "the position is a RANK (count of entries ordered before the runner): entries that tie on the compared attribute - e.g. runners registered by one heartbeat batch share one creation time - get the same position, hence the same window, and are authorised together")
     # ordering of the list in both backends: shared with C16/R3
     from . import c16
 
@@ -469,7 +596,7 @@ def run(ctx: Context) -> None:
         raise AnalysisError("C12: a path of can_run_atomic_service falls off the end")
     where = it.funcs["calculate_time_slot"].loc() if "calculate_time_slot" in it.funcs else target.loc()
     twhere = target.loc()
-    I, M, N, P = Poly.sym("I"), Poly.sym("M"), Poly.sym("N"), Poly.sym("p")
+    I, M, N, P = Poly.const(60) * Poly.sym("Imin"), Poly.const(60) * Poly.sym("Mmin"), Poly.sym("N"), Poly.sym("p")
     mods = {m.ret.modulus for m in members}
     ctx.add("R2", "membership::one-modulus-equal-to-the-interval", mods == {I}, twhere, "" if mods == {I} else f"the clock is reduced modulo {sorted(map(repr, mods))}, the slots divide {I!r}")
     lows = {m.ret.lo for m in members}
@@ -490,16 +617,31 @@ def run(ctx: Context) -> None:
         # exclusion against the next position on every branch of the neighbour
         rel = "< 0" if closed_both else "<= 0"
         decide(ctx, "R2", f"window[{tag}]::upper(p)-before-lower(p+1)", where, mem.hi - low_next, rel, arith(_p_facts(m.facts)), "two runners are authorised at the same instant" + (" (both ends of the membership test are closed, so touching windows share an instant)" if closed_both else ""), need_p_succ=True)
-        # margin
+        # margin: only claimed for configurations where the margin fits into a slot (slot - margin > 0)
         fits = I.div(N) - M
         exempt = any(q == fits and r in ("<= 0", "< 0") or q == -fits and r in (">= 0", "> 0") for q, r in m.facts)
         if not exempt:
-            decide(ctx, "R3", f"window[{tag}]::margin-to-next-window", where, low_next - mem.hi - M, ">= 0", arith(_p_facts(m.facts)), "consecutive windows are closer than the configured margin although the margin fits into a slot", need_p_succ=True)
+            ff = [(fits, "> 0")]
+            decide(ctx, "R3", f"window[{tag}]::margin-to-next-window", where, low_next - mem.hi - M, ">= 0", arith(_p_facts(m.facts)) + ff, "consecutive windows are closer than the configured margin although the margin fits into a slot", need_p_succ=True)
             last_hi = mem.hi.subst("p", N - Poly.const(1))
             first_lo = low.subst("p", Poly.const(0))
-            decide(ctx, "R3", f"window[{tag}]::margin-across-the-cycle-boundary", where, mem.modulus + first_lo - last_hi - M, ">= 0", arith(_subst_facts(m.facts, N - Poly.const(1))), "the last window of a cycle and the first of the next are closer than the configured margin")
+            decide(ctx, "R3", f"window[{tag}]::margin-across-the-cycle-boundary", where, mem.modulus + first_lo - last_hi - M, ">= 0", arith(_subst_facts(m.facts, N - Poly.const(1))) + ff, "the last window of a cycle and the first of the next are closer than the configured margin")
         else:
             ctx.ok("R3", f"window[{tag}]::exempt-margin-does-not-fit", where, "branch guarded by slot - margin <= 0")
+        # floating point: where the real-arithmetic gap can be zero (margin 0 or tiny), the ORDER upper(p) <= lower(p+1)
+        # must survive rounding: upper(p) has to be lower(p+1) minus non-negative terms, evaluated in that order
+        gap0 = (mem.hi - low_next).subst("Mmin", Poly())
+        if proves(gap0, "< 0", SIGNS, []):
+            ctx.ok("R6", f"window[{tag}]::float-order-upper(p)-before-lower(p+1)", where, f"the gap {gap0!r} is a fixed fraction of the slot even without margin: rounding errors (relative 2^-52) cannot close it")
+        else:
+            ut, lt = mem.hi.tree, tree_subst(mem.lo.tree, "p", ("+", ("sym", "p"), ("const", "1")))
+            if ut is None or lt is None:
+                raise AnalysisError("C12: the order of evaluation of a window bound was lost (R6)")
+            core = ut
+            while core[0] == "-" and proves(tree_poly(core[2]), ">= 0", SIGNS, []):
+                core = core[1]
+            okf = tree_canon(core) == tree_canon(lt)
+            ctx.add("R6", f"window[{tag}]::float-order-upper(p)-before-lower(p+1)", okf, where, "" if okf else f"in real arithmetic upper(p) = lower(p+1) - margin, but the floats are computed along different routes: upper(p) = {tree_show(ut)}, lower(p+1) = {tree_show(lt)}; with margin 0 (or tiny) the rounded upper bound can exceed the neighbour's rounded lower bound by one ulp - e.g. 7 runners, 6 minutes: two runners are authorised at the same instant. Computing the upper bound as lower(p+1) minus the margin keeps the order exactly (correctly rounded subtraction of a non-negative number is monotone)")
         # presence
         decide(ctx, "R4", f"window[{tag}]::non-empty", where, mem.hi - mem.lo, "> 0", arith(m.facts), "a runner's window is empty: it never runs the global services")
         decide(ctx, "R4", f"window[{tag}]::starts-at-or-after-cycle-start", where, mem.lo, ">= 0", arith(m.facts), "the window starts before the cycle")
@@ -532,11 +674,11 @@ def run(ctx: Context) -> None:
     ctx.exhaustive = True
     ctx.assumptions += [
         "interval > 0, margin >= 0 (configuration), N = number of listed runners > 0, 0 <= p <= N-1",
-        "arithmetic over the rationals (floating-point rounding at large epoch offsets is not modelled)",
+        "R2-R5 over the rationals; R6 adds the one floating-point fact the exclusion needs (order of touching bounds); N < 2^40",
         "all runners are given the same ordered list and read the same clock",
     ]
     ctx.not_decided += [
-        "floating-point rounding of the slot boundaries and of `time() % interval` at large epoch offsets",
+        "floating-point rounding beyond R6: the width of a window when margin = slot exactly, the margin itself up to one ulp, `time() % interval` at large epoch offsets",
         "runners observing different active-runner lists (heartbeat churn) or skewed clocks",
         "that a runner's services finish inside its window (only warned about at run time)",
     ]
